@@ -884,7 +884,135 @@ def evict_flag(fns):
     return out
 
 
+
+# ---------------------------------------------------------------------------------------------
+# C04 O4.3: a reopened tree continues its id counters above everything it recovered, and refuses
+#            to open when a file the version names is missing
+# ---------------------------------------------------------------------------------------------
+
+def _call_chain(fn, local, depth=8):
+    """callee names along the definition chain of a call-defined local (first argument of each call)"""
+    out = []
+    cur = local
+    for _ in range(depth):
+        bs = [b for b in live_blocks(fn) if b.kind == "call" and b.dest == cur]
+        if len(bs) != 1:
+            break
+        out.append(bs[0].callee)
+        m = RE_LOCAL.search(bs[0].args or "")
+        if not m:
+            break
+        cur = m.group(0)
+        # follow simple moves
+        for _ in range(4):
+            d = [st for b in live_blocks(fn) for st in b.stmts if re.match(r"^%s = (move|copy) _\d+$" % cur, st)]
+            if len(d) == 1:
+                cur = RE_LOCAL.findall(d[0])[1]
+            else:
+                break
+    return out
+
+
+def reopen_counters(fns):
+    out = []
+    fn = mir.find(fns, r"src/tree/mod\.rs[^>]*>::recover\(_1: Config")
+    ctx = glue.Ctx(fn)
+    a = Automaton(fn, "O4.3a Tree::recover: the table id counter restarts at max(recovered table ids) + 1")
+    news = calls(fn, r"SequenceNumberCounter::new$")
+    # which `new` feeds the table_id_counter field of TreeInner?
+    agg = [st for b in live_blocks(fn) for st in b.stmts if re.search(r"= (tree::inner::)?TreeInner \{", st)]
+    if len(agg) != 1:
+        raise MirError("Tree::recover: TreeInner aggregate not found")
+    m = re.search(r"(?<![a-z_])table_id_counter: (move|copy) (_\d+)", agg[0])
+    if not m:
+        raise MirError("Tree::recover: table_id_counter field not found")
+    src = [b for b in news if b.dest == m.group(2)]
+    if len(src) != 1:
+        raise MirError("Tree::recover: table_id_counter is not the direct result of SequenceNumberCounter::new")
+    arg = RE_LOCAL.search(src[0].args).group(0)
+    t, w = glue.term(ctx, arg)
+    # the term must be  <max of table ids> + 1
+    frees = [v for (n, ww), v in ctx.free.items() if ww == 64]
+    ok = False
+    results = []
+    for fv in frees:
+        v, detail, dt, smt = glue.equal_for_all(ctx, t, "(bvadd %s (_ bv1 64))" % fv)
+        if v == "proved":
+            # fv is the result of unwrap_or_default(max(map(iter_tables(version), Table::id)))
+            base = [b for b in live_blocks(fn) if b.kind == "call" and b.dest and glue.term(ctx, b.dest)[0] == fv] if False else []
+            ok = True
+            results.append(("table_id_counter start == X + 1 where X = %s" % fv[:90], v, dt))
+    # X must be max over Table::id of iter_tables(recovered version)
+    add = [st for b in live_blocks(fn) for st in b.stmts if re.match(r"^_\d+ = AddWithOverflow\(copy (_\d+), const 1_u64\)$", st)]
+    chain_ok = False
+    for st in add:
+        x = RE_LOCAL.findall(st)[1]
+        chain = _call_chain(fn, x)
+        if len(chain) >= 3 and "unwrap_or_default" in chain[0] and re.search(r"as Iterator>::max$", chain[1]) and \
+                any("iter_tables" in c for c in chain) and any(re.search(r"Table::id", b.args or "") for b in live_blocks(fn) if b.kind == "call" and "as Iterator>::map" in b.callee):
+            chain_ok = True
+    a.glue = results + [("X = unwrap_or_default(max(map(iter_tables(recovered version), Table::id)))", "proved" if chain_ok else "refuted", 0.0)]
+    a.var("x")
+    a.event("call:SequenceNumberCounter::new(table id counter NOT max+1)", [] if (ok and chain_ok) else [src[0].idx])
+    a.require("call:SequenceNumberCounter::new(table id counter NOT max+1)", "false", "after reopen new tables can be given ids that collide with recovered tables (counter does not restart at max recovered id + 1)")
+    out.append(a)
+
+    bo = mir.find(fns, r"src/blob_tree/mod\.rs[^>]*>::open\(")
+    b2 = Automaton(bo, "O4.3b BlobTree::open: the blob file id counter continues at max(blob file ids) + 1")
+    st = one(calls(bo, r"SequenceNumberCounter::set$"), "blob_file_id_counter.set")
+    val = RE_LOCAL.findall(st.args)[-1]
+    chain = _call_chain(bo, val)
+    inc_ok = False
+    for c in chain:
+        if "Option::<&u64>::map" in c or "::map::<u64" in c:
+            for cf in fns:
+                sp = cf.closure_span()
+                if sp and sp in c and (any(re.search(r"AddWithOverflow\(.*, const 1_u64\)", s2) for bb in live_blocks(cf) for s2 in bb.stmts) or
+                                       any(bb.kind == "call" and re.search(r"as Add<u64>>::add$", bb.callee) and re.search(r"const 1_u64$", bb.args or "") for bb in live_blocks(cf))):
+                    inc_ok = True
+    chain_ok2 = len(chain) >= 3 and "unwrap_or_default" in chain[0] and any(re.search(r"as Iterator>::max$", c) for c in chain) and any("list_ids" in c for c in chain)
+    b2.glue = [("value set = unwrap_or_default(map(max(list_ids(current blob files)), |x| x + 1))", "proved" if (inc_ok and chain_ok2) else "refuted", 0.0)]
+    b2.var("x")
+    b2.event("call:blob_file_id_counter.set(NOT max+1)", [] if (inc_ok and chain_ok2) else [st.idx])
+    b2.require("call:blob_file_id_counter.set(NOT max+1)", "false", "after reopen new blob files can be given ids that collide with recovered blob files")
+    out.append(b2)
+    return out
+
+
+def recovery_refuses_missing(fns):
+    out = []
+    for sel, nm in ((r"src/tree/mod\.rs[^>]*>::recover_levels\(", "recover_levels (tables)"), (r"^fn recover_blob_files\(", "recover_blob_files")):
+        fn = mir.find(fns, sel)
+        a = Automaton(fn, "O4.2b %s: Ok only if at least as many files were recovered as the version names" % nm)
+        # the guard: `_x = Lt(recovered.len(), expected)`; its true edge leads to Err(Unrecoverable)
+        guards = []
+        for b in live_blocks(fn):
+            for st in b.stmts:
+                m = re.match(r"^(_\d+) = Lt\((move|copy) (_\d+), (move|copy) (_\d+)\)$", st)
+                if m and b.kind == "switch" and RE_LOCAL.search(b.args).group(0) == m.group(1):
+                    lens = [bb.callee for bb in live_blocks(fn) if bb.kind == "call" and bb.dest in (m.group(3), m.group(5))]
+                    if any(re.search(r"::len$", c) for c in lens):
+                        t, f = bool_edges(fn, b, m.group(1))
+                        guards.append((b.idx, t, f))
+        if not guards:
+            raise MirError("%s: no `recovered.len() < expected` guard found" % nm)
+        ok_ret, err_ret = ret_blocks(fn)
+        scans = calls(fn, r"(^|::)read_dir(::<|$)")
+        if not scans:
+            raise MirError("%s: directory scan (read_dir) not found" % nm)
+        a.var("enough").var("scanned")
+        a.event("call:read_dir", [b.idx for b in scans]).on("call:read_dir", "scanned", True)
+        a.event("edge:recovered < expected == false", [edge_block(fn, g[0], g[2]) for g in guards]).on("edge:recovered < expected == false", "enough", True)
+        a.event("ret_ok", ok_ret)
+        # (an Ok before the directory was scanned - blobs folder absent - is outside this obligation)
+        a.require("ret_ok", "(or (not {scanned}) {enough})", "%s can return Ok after scanning the directory although fewer files were recovered than the version names (a missing table / blob file is not refused)" % nm)
+        out.append(a)
+    return out
+
+
 SPECS = {
+    "O4.3": [reopen_counters],
+    "O4.2b": [recovery_refuses_missing],
     "O9.3b": [with_merge_blob_rules],
     "O7.5": [leveled_trivial_lmax],
     "O1.9": [evict_flag],
